@@ -244,6 +244,15 @@ func (a *engaAdversary) bundle(sc *engaSched, r round, p period) bool {
 		return string(keys[i].v.BlockDigest[:]) < string(keys[j].v.BlockDigest[:])
 	})
 	k := keys[rapid.IntRange(0, len(keys)-1).Draw(sc.t, "byzBundleKey")]
+	if rapid.Bool().Draw(sc.t, "byzBundleCert") {
+		// prefer a cert-step bundle (a certificate) when one can be formed
+		for _, c := range keys {
+			if c.s == cert {
+				k = c
+				break
+			}
+		}
+	}
 	proto := engaProto()
 	// equivocation pairs by Byzantine identities in this step
 	var eqs []equivocationVote
@@ -277,6 +286,14 @@ func (a *engaAdversary) bundle(sc *engaSched, r round, p period) bool {
 	}
 	if len(votes) == 0 || !k.s.reachesQuorum(proto, weight) {
 		return false
+	}
+	// makeBundle packs plain votes first and adds equivocation pairs only while the quorum is not reached
+	// (bundle.go:95-124): leave out plain votes, as far as the quorum allows, so that the pairs are needed
+	if len(eqs) > 0 && rapid.Bool().Draw(sc.t, "byzNeedEq") {
+		for len(votes) > 1 && k.s.reachesQuorum(proto, weight-votes[len(votes)-1].Cred.Weight) {
+			weight -= votes[len(votes)-1].Cred.Weight
+			votes = votes[:len(votes)-1]
+		}
 	}
 	ub := makeBundle(proto, k.v, votes, eqs)
 	b := s.byz[0]
